@@ -190,6 +190,10 @@ func Handle(r jsonrpc2.Request, state *State) any {
 	case "textDocument/didChange":
 		var p DidChangeTextDocumentParams
 		json.Unmarshal([]byte(*r.Params), &p)
+		if len(p.ContentChanges) == 0 {
+			// a change notification that changes nothing: the document stays as it is
+			return nil
+		}
 		text := p.ContentChanges[len(p.ContentChanges)-1].Text
 		state.updateDocument(p.TextDocument.URI, text)
 		return nil
